@@ -214,7 +214,7 @@ type c15H struct {
 	expConcl  atomic.Int64 // microtasks submitted by the harness (each concludes exactly once)
 
 	probeArmed atomic.Pointer[chan probeSample]
-	resync     atomic.Bool // overflow classes: re-base the request count at the probe's grant
+	drainMode  bool // set by an overflow history: the number of queued requests is unknown from then on, fences drain the queues instead of counting
 
 	firstTimeoutT   atomic.Int64 // unix nanos of the first modules.stop.timeout hit
 	firstTimeoutMod atomic.Value // module name of it
@@ -267,11 +267,6 @@ func c15Child(dir string, raw []byte) {
 			for _, m := range h.mods {
 				_, _, mt := m.VerifModuleCounts()
 				smp.perMod = append(smp.perMod, mt)
-			}
-			if h.resync.Swap(false) {
-				// every request queued so far has been answered (FIFO queues, drained by
-				// probes) and counted by this handler: this grant is the only open one
-				h.submitted.Store(h.granted.Load() + 1)
 			}
 			*ch <- smp
 		}
@@ -846,7 +841,10 @@ func mixSig(h *c15Hist) string {
 func (h *c15H) fence(hi int, hist *c15Hist) bool {
 	sp := h.sp
 	deadline := time.Now().Add(60 * time.Second)
-	overflow := strings.HasPrefix(hist.Class, "overflow")
+	if strings.HasPrefix(hist.Class, "overflow") {
+		h.drainMode = true
+	}
+	overflow := h.drainMode
 	for (!overflow && h.granted.Load() != h.submitted.Load()) || h.concluded.Load() != h.expConcl.Load() {
 		// both expectations are final here (every submission of the history was made),
 		// the observed counts only grow: an excess cannot go away
@@ -879,20 +877,33 @@ func (h *c15H) fence(hi int, hist *c15Hist) bool {
 		// the number of requests is unknown here. The queues are FIFO: once a low- and
 		// then a medium-priority drain microtask submitted now have been granted, every
 		// request queued during the history (also the stale ones of functions that
-		// started by their max delay) has been answered and counted. The request count is
-		// then re-based inside the grant hook of the sampling probe.
+		// started by their max delay) has been answered and counted. All later fences of
+		// this child work the same way.
 		h.expConcl.Add(2)
 		_ = h.prb.RunLowPriorityMicroTask("drain", c15BigDelayMs*time.Millisecond, func(context.Context) error { return nil })
 		_ = h.prb.RunMicroTask("drain", c15BigDelayMs*time.Millisecond, func(context.Context) error { return nil })
-		h.resync.Store(true)
 	}
 	var smp probeSample
+	negRetakes := 0
 	patience := time.Now().Add(10 * time.Second)
 	for try := 0; ; try++ {
 		var ok bool
 		smp, ok = h.probe(hi)
 		if !ok {
 			return false
+		}
+		if overflow && smp.global < 0 && negRetakes < 6 {
+			// In the overflow classes the request count is unknown, so the fence cannot wait
+			// for "grants == requests" before arming the probe. The grant handler of the
+			// previous (drain or probe) microtask may then still be pending when the probe is
+			// armed - the scheduler goroutine was descheduled between answering that request
+			// and reaching the hook - and takes the sample in the probe's place, one
+			// increment short. A genuinely negative count is the same in every sample; the
+			// artifact needs that coincidence anew each time. Re-take before judging.
+			negRetakes++
+			h.b.Count("m3_overflow_negative_samples_retaken", 1)
+			time.Sleep(2 * time.Millisecond)
+			continue
 		}
 		if smp.global <= 0 || time.Now().After(patience) {
 			if try > 0 {
